@@ -371,7 +371,23 @@ fn parent(id: &str, tier: &str) -> i32 {
             }
             Some(st) => {
                 let err = std::fs::read_to_string(&c.errlog).unwrap_or_default();
-                let handled = props::worker_died(id, &rundir, &c.profile, c.k, &err, &mut all_viol, &known);
+                let rerun = |note: &str| -> bool {
+                    // same worker, same seed, careful mode; true when it dies again
+                    let st = Command::new(&exes[&c.profile])
+                        .args(["worker", id, tier, &c.k.to_string(), &per_profile.to_string(), &c.shard])
+                        .env("VERIF_SEED", seed.to_string())
+                        .env("VERIF_ROOT", &root)
+                        .env("VERIF_RUNDIR", &rundir)
+                        .env("VERIF_CAREFUL", note)
+                        .stdout(Stdio::null())
+                        .stderr(Stdio::null())
+                        .status();
+                    match st {
+                        Ok(s) => !s.success(),
+                        Err(_) => false,
+                    }
+                };
+                let handled = props::worker_died(id, &rundir, &c.profile, c.k, &err, &mut all_viol, &known, &rerun);
                 if !handled {
                     let tail: String = err.lines().rev().take(3).collect::<Vec<_>>().join(" / ");
                     inconclusive.push(format!("worker {}-{} died: {:?} {}", c.profile, c.k, st, tail));
